@@ -102,6 +102,76 @@ def fold_table(ctx, lib, cb):
     return tab, problems
 
 
+def loop_fold_table(ctx, lib, b, bb_site, t_site):
+    """term-class table of one round of the innermost `for` loop of `b` that contains the restrict call at bb_site; None if the site is not inside such a loop.
+    The round is run symbolically: the loop's `next` is answered with Some((i, &term of class c)) and the path is followed to the loop's back edge."""
+    loops = b.natural_loops()
+    cands = [(len(blocks), head) for head, blocks in loops.items() if bb_site in blocks]
+    if not cands:
+        return None
+    head = min(cands)[1]
+    blocks = loops[head]
+    calls, d = flow.all_call_exprs(b)
+    nexts = [(bb, t, e) for bb, t, ci, e in calls if bb in blocks and e[0] == "call" and flow.last(e[2]) == "next" and "d:ForLoop" in (t.get("exp") or [])]
+    # the `next` of this loop: the one not contained in a smaller loop nested inside
+    inner_blocks = set()
+    for h2, bl2 in loops.items():
+        if h2 != head and bl2 < blocks:
+            inner_blocks |= bl2
+    nexts = [x for x in nexts if x[0] not in inner_blocks]
+    if len(nexts) != 1:
+        return None
+    nbb, nt, ne = nexts[0]
+    src, steps = flow.chain_of(ne[3][0]) if ne[3] else (None, [])
+    chain_names = [s_[0] for s_ in steps]
+    if src is None:
+        return None
+    eng = ctx.engine([lib], no_inline={RESTRICT})
+    tab, problems = {}, []
+    I = ("sym", "i")
+    for c in shared.CLASSES:
+        st = symx.State()
+
+        def hook(eng_, st_, frame, path, target, args, t, c=c):
+            if t is nt or (t.get("loc") == nt.get("loc") and flow.last(target) == "next" and "d:ForLoop" in (t.get("exp") or [])):
+                return [(st_, symx.mk_adt("std::option::Option", "Some", [("0", ("tuple", (I, shared.ref_to(st_, shared.term(c)))))]))]
+            return NotImplemented
+        eng.call_hook = hook
+        try:
+            paths = [p for p in eng.summarise(b, None, st) if p.end == "backedge" and p.end_bb == head]
+        finally:
+            eng.call_hook = None
+        outs = set()
+        if not paths:
+            problems.append("no round of the loop reaches its back edge for class %s" % c)
+        acc0 = None
+        for p in paths:
+            rcalls = [e for e in p.effects if e.get("kind") == "call" and flow.fname(e["resolved"]) == "Bdd::restrict"]
+            if len(rcalls) > 1:
+                problems.append("%d restrict calls in one round" % len(rcalls))
+            if rcalls:
+                a = [strip(x) for x in rcalls[0]["args"][1:]]
+                acc0 = a[0]
+                if a[1] != shared.var_of(I):
+                    problems.append("restricts variable %s instead of Var(index of the tested entry)" % show(a[1]))
+                if a[2][0] != "bool":
+                    problems.append("value %s is not decided by the class" % show(a[2]))
+                    outs.add(("restrict", show(a[2])))
+                else:
+                    outs.add(("restrict", a[2][1]))
+                # the result becomes the accumulator: some local holds it at the back edge, and the restricted handle is the value that local had at the loop head
+                res = strip(rcalls[0]["result"])
+                holders = [l for l, v in p.locals.items() if strip(v) == res]
+                if not holders:
+                    problems.append("the result of restrict is not kept as the accumulator")
+                elif not (a[0][0] == "loopvar" and a[0][1] == head and a[0][2] in holders):
+                    problems.append("restricts %s instead of the accumulator" % show(a[0]))
+            else:
+                outs.add(("acc",))
+        tab[c] = outs
+    return tab, problems, src, chain_names
+
+
 def idiom_of(tab):
     if all(len(v) == 1 for v in tab.values()):
         flat = {k: next(iter(v)) for k, v in tab.items()}
@@ -120,7 +190,8 @@ def F_restrict_native(ctx, lib, rule, only=None):
     # a restriction site like one that calls restrict directly (the table engine inlines the helper)
     helpers = set()
     for hb in lib.all_bodies:
-        if hb.kind != "closure" and not (hb.file or "").endswith("obdd.rs") and any(ir.callee_path(ci) == RESTRICT for _, _, ci in hb.calls()):
+        if hb.kind != "closure" and not (hb.file or "").endswith("obdd.rs") and any(ir.callee_path(ci) == RESTRICT for _, _, ci in hb.calls()) \
+                and hb.qual not in NATIVE_SITES and hb.qual not in DECIDE_ONE:   # an anchored site written as a loop is a site, not a helper of its callers
             helpers.add(hb.path)
     sites = []
     for b in lib.all_bodies:
@@ -143,7 +214,30 @@ def F_restrict_native(ctx, lib, rule, only=None):
                 check_decide_one(ctx, lib, rule, b, bb, t)
                 continue
             if b.kind != "closure":
-                ctx.ob(rule, "%s:restrict-outside-closure" % q, False, where=where, expected="a recognised restriction idiom", found="direct call", kind="unreviewed")
+                # the fold written as a loop: `let mut acc = x; for (i, term) in interp.iter().enumerate() { if .. { acc = restrict(acc, Var(i), v) } }`
+                lt = loop_fold_table(ctx, lib, b, bb, t)
+                if lt is None:
+                    ctx.ob(rule, "%s:restrict-outside-closure" % q, False, where=where, expected="a recognised restriction idiom", found="direct call", kind="unreviewed")
+                    continue
+                tab, problems, src, chain_names = lt
+                idiom = idiom_of(tab)
+                roles_q = NATIVE_SITES.get(q, {})
+                wants = sorted(set(v[0] for v in roles_q.values()))
+                key = "%s/%s" % (q, "loop")
+                seen.add((q, ("loop",)))
+                ctx.ob(rule, key + ".chain", chain_names in (["iter", "enumerate"], ["iter", "enumerate", "into_iter"]), where=where,
+                       expected="for (i, term) in x.iter().enumerate(): index = position of the tested entry", found=chain_names)
+                self_fields = flow.find(src, lambda n_: n_[0] == "field" and n_[1] == ("param", 1))
+                has_param = flow.find(src, lambda n_: n_[0] == "param" and n_[1] >= 2) or flow.find(src, lambda n_: n_[0] == "phi")
+                ctx.ob(rule, key + ".source", not self_fields and bool(has_param), where=where, expected="the interpretation/candidate handed to the enclosing function",
+                       found=flow.show(src)[:160])
+                ctx.ob(rule, key + ".operands", not problems, where=where, expected="acc = restrict(acc, Var(i), value decided by class(entry i))", found=problems[:3])
+                if wants:
+                    ctx.ob(rule, key + ".idiom", idiom in wants, where=where, expected=" or ".join(wants), found="%s %s" % (idiom, {k: sorted(map(str, v)) for k, v in tab.items()}))
+                else:
+                    ctx.ob(rule, key + ".idiom", idiom is not None, where=where, expected="FULL or REDUCT table (new site)",
+                           found="%s %s" % (idiom, {k: sorted(map(str, v)) for k, v in tab.items()}), kind="unreviewed",
+                           note="new restriction site accepted as recognised idiom" if idiom else None)
                 continue
             parent = lib.body(b.parent)
             roles, pdefs = flow.closure_roles(parent)
@@ -482,14 +576,25 @@ def P_progress(ctx, lib, rule):
             continue
         n += 1
         loops = b.natural_loops()
+        acc_loop = None
+        if len(loops) == 3:
+            # the restriction fold written as a third, innermost loop (over the entries of the interpretation): outer > conditions > entries
+            by = sorted(loops, key=lambda h: len(loops[h]))
+            if loops[by[0]] < loops[by[1]] < loops[by[2]]:
+                acc_loop = by[0]
+                loops = {by[1]: loops[by[1]], by[2]: loops[by[2]]}
         if len(loops) != 2:
             ctx.cannot(rule, kind + ".loops", "an outer fixpoint loop and an inner loop over the conditions", b.where(), sorted(loops))
             continue
         outer = max(loops, key=lambda h: len(loops[h]))
         inner = min(loops, key=lambda h: len(loops[h]))
         ctx.ob(rule, kind + ".nesting", loops[inner] < loops[outer], where=b.where(), expected="inner loop nested in the fixpoint loop", found=(outer, inner))
+        def _debug_assert_exit(s_):
+            # the failing arm of a debug_assert!: a diverging panic call expanded from the macro (compiled out of the shipped binary)
+            tt = b.blocks[s_]["term"]
+            return tt["k"] == "call" and tt.get("t") is None and any(str(x_).startswith("m:debug_assert") for x_ in (tt.get("exp") or []))
         exits = [(x, s_) for x in loops[outer] for s_ in b.succs(x) if s_ not in loops[outer]
-                 and not (b.blocks[s_]["term"]["k"] == "unreachable" and not b.blocks[s_]["stmts"])]
+                 and not (b.blocks[s_]["term"]["k"] == "unreachable" and not b.blocks[s_]["stmts"]) and not _debug_assert_exit(s_)]
         ctx.ob(rule, kind + ".single-exit", len(set(exits)) == 1, where=b.where(), expected="exactly one exit of the fixpoint loop", found=sorted(set(exits)))
         eng = ctx.engine([lib], no_inline={RESTRICT}, intrinsics=shared.BIO_INTRINSICS)
         paths = eng.summarise(b)
@@ -531,7 +636,8 @@ def P_progress(ctx, lib, rule):
                 # class of the newly assigned condition: tested through is_truth_value on the fold result
                 tested = None
                 for e, v in tv:
-                    if symx.contains(e, lambda n_: n_[0] == "app" and flow.last(n_[1]) == "fold") and e[2][1] == vint(1):
+                    if (symx.contains(e, lambda n_: n_[0] == "app" and flow.last(n_[1]) == "fold")
+                            or (acc_loop is not None and symx.contains(e, lambda n_: n_[0] == "loopvar" and n_[1] == acc_loop))) and e[2][1] == vint(1):
                         tested = int_of(v)
                 if tested is None:
                     ctx.cannot(rule, "native.step-test", "is_truth_value of the freshly assigned condition", b.where(), p.describe()[:240])
